@@ -37,6 +37,7 @@ def answer (line : String) : String :=
         "bary", "lpi"].contains (toks.headD "") then kernelAnswer (toks.filter (· ≠ ""))
     else if ["tr", "g1dec", "g2dec", "g1mul", "g1add", "g2mul"].contains (toks.headD "") then
       cryptoAnswer (toks.filter (· ≠ ""))
+    else if (toks.headD "").startsWith "kzg" then kzgAnswer (toks.filter (· ≠ ""))
     else "bad-request"
 
 partial def loop (h : IO.FS.Stream) (out : IO.FS.Stream) : IO Unit := do
